@@ -43,6 +43,25 @@ def mentions(v, pred, depth=0):
     return any(mentions(x, pred, depth + 1) for x in v if isinstance(x, tuple))
 
 
+VIEW_FNS = {"as_ref", "as_mut", "unwrap", "expect", "unwrap_unchecked", "deref", "deref_mut", "as_slice", "as_mut_slice", "as_bytes", "borrow", "borrow_mut", "identity", "as_ptr", "as_mut_ptr"}
+
+
+def is_view_of(v, pred, depth=0):
+    """v is a view (reborrow / unwrap / slice / raw view) of a place satisfying pred -- not a copy made from it"""
+    if not isinstance(v, tuple) or not v or depth > 24:
+        return False
+    if pred(v):
+        return True
+    h = v[0]
+    if h in ("rawslice", "elems", "vfield", "field", "index", "tryok", "unwrapped", "okof", "ptrto", "cast", "alignto", "view"):
+        return is_view_of(v[1], pred, depth + 1)
+    if h == "adt" and v[1] in ("core::option::Option", "core::result::Result") and v[3]:
+        return is_view_of(dict(v[3]).get(0), pred, depth + 1)
+    if h == "call" and v[1] in VIEW_FNS and v[2]:
+        return is_view_of(v[2][0], pred, depth + 1)
+    return False
+
+
 def loaders(u):
     out = []
     for b in u.bodies.values():
@@ -120,7 +139,7 @@ def rule_loader_paths(u, rep, want=("LEAK", "RAW", "FILL", "ARG", "CAP")):
                         deser_idx = i
                         if "ARG" in want:
                             a = args[0] if args else None
-                            ok = mentions(a, lambda x: is_uninit_field(x, bi))
+                            ok = is_view_of(a, lambda x: is_uninit_field(x, bi))
                             if not ok and backend_value is not None and len(e) > 7:
                                 # a raw view of the heap buffer / mapping of the very value that was moved into the backend field
                                 ok = any(isinstance(rv, tuple) and len(rv) > 1 and rv[0] in ("call", "vec", "tryok") and mentions(backend_value, lambda x, rv=rv: x == rv) for rv in e[7])
